@@ -199,7 +199,7 @@ class ExprMixin:
         return Closure(node, dict(self.st.env))
 
     def e_IfExp(self, node):
-        c = as_bool(self.eval(node.test))
+        c = self.truthy(self.eval(node.test), node)
         if z3.is_true(z3.simplify(c)):
             return self.eval(node.body)
         if z3.is_false(z3.simplify(c)):
@@ -253,7 +253,7 @@ class ExprMixin:
                 v = self.eval(e)
                 if idx == len(node.values) - 1:
                     return v
-                t = self.branch(as_bool(v), getattr(node, "lineno", 0))
+                t = self.branch(self.truthy(v, node), getattr(node, "lineno", 0))
                 if t != is_and:
                     return v if not (isinstance(v, ZB) or self._boolish(v)) else ZB(t)
             return v
@@ -288,7 +288,7 @@ class ExprMixin:
     def e_UnaryOp(self, node):
         v = self.eval(node.operand)
         if isinstance(node.op, ast.Not):
-            return ZB(z3.Not(as_bool(v)))
+            return ZB(z3.Not(self.truthy(v, node) if not self.st.spec_mode else as_bool(v)))
         if isinstance(node.op, ast.USub):
             if isinstance(v, PyC):
                 return PyC(-v.value)
@@ -689,6 +689,8 @@ class ExprMixin:
                 items.append(self.eval(node.elt))
             self.st.env = saved
             return PySeq(items, "set" if kind == "set" else "list")
+        if self.tainted(src) and not self.st.spec_mode:
+            self.effect("iteration", self.exact_builtin_container(src), node)
         sv = self.seq_of(src)
         st = self.st
         j = L.fresh("j", L.I)
